@@ -205,6 +205,27 @@ MUTS = {
                 tuple([getattr(self, field) for field in type(self)._FIELDS]),
             )
         )""")],
+ # ---- round 7: identity of the constituents, unhashable field values ----
+ # seeded /verif/seeded/C16-z2: unary + memoised BY VALUE (lru_cache keyed by __hash__/__eq__)
+ "pos_value_cache": [(T, "    def __pos__(self) -> RenderArgs:\n",
+                         "    @__import__('functools').lru_cache(maxsize=256)\n    def __pos__(self) -> RenderArgs:\n")],
+ # own: the constructor stores an equal COPY of every namespace given
+ "ctor_copies_namespaces": [(T, "            namespaces_dict[namespace._RENDER_CLS] = namespace\n",
+                                "            namespaces_dict[namespace._RENDER_CLS] = namespace.update(**namespace.as_dict())\n")],
+ # own: to_render_args memoised by value in a dict
+ "to_render_args_value_cache": [(T, "        return RenderArgs(render_cls or type(self)._RENDER_CLS, self)\n",
+                                    "        try:\n            return _TRA_CACHE.setdefault((render_cls, self), RenderArgs(render_cls or type(self)._RENDER_CLS, self))\n        except TypeError:\n            return RenderArgs(render_cls or type(self)._RENDER_CLS, self)\n"),
+                                (T, "BASE_RENDER_ARGS = RenderArgs.__new__(RenderArgs, None)",
+                                    "_TRA_CACHE = {}\nBASE_RENDER_ARGS = RenderArgs.__new__(RenderArgs, None)")],
+ # seeded /verif/seeded/C09-z1 (core of it): RenderArgs.__eq__ rejects early on a hash mismatch
+ "raeq_hash_shortcut": [(T, "                or self.render_cls is other.render_cls\n                and self._namespaces == other._namespaces\n",
+                            "                or self.render_cls is other.render_cls\n                and hash(self) == hash(other)\n                and self._namespaces == other._namespaces\n")],
+ # own: ArgsNamespace.__eq__ compares the value tuples through their hashes first
+ "nseq_hash_shortcut": [(T, "                type(self)._RENDER_CLS is type(other)._RENDER_CLS\n                and all(\n",
+                            "                type(self)._RENDER_CLS is type(other)._RENDER_CLS\n                and hash(self) == hash(other)\n                and all(\n")],
+ # own: `ns in set` through a set of the constituents
+ "contains_via_set": [(T, "        return None is not self._namespaces.get(namespace._RENDER_CLS) == namespace\n",
+                          "        return namespace in set(self._namespaces.values())\n")],
 }
 if sys.argv[1] == "all":
     for n in MUTS:
